@@ -1937,7 +1937,8 @@ def g_c20(r, tier, env, Ls):
         cs.append(Case(line, dict(expect=expect), "errc", oracle=oracle_errc, tags=["errc", tag]))
     for nr in range(0, 5):
         E(f"errc surface {nr}", "err MICM_Process 1" if nr > 1 else f"errc ok reactants={nr}", "surface")
-    for k, ex in [(0, "ok"), (1, "err MICM_Species 1"), (2, "err MICM_Species 1"), (3, "err MICM_Species 1"), (4, "err MICM_Species 1"), (5, "err MICM_Species 2")]:
+    for k, ex in [(0, "ok"), (1, "err MICM_Species 1"), (2, "err MICM_Species 1"), (3, "err MICM_Species 1"), (4, "err MICM_Species 1"), (5, "err MICM_Species 2"),
+                  (6, "err MICM_Species 1"), (7, "err MICM_Species 1"), (8, "err MICM_Species 1"), (9, "err MICM_Species 1"), (10, "err MICM_Species 1")]:
         E(f"errc property {k}", ex, "property")
     for _ in range(30):
         L = r.pick([0, 3]); rows = r.rng(0, 5); c0 = r.rng(0, 4)
@@ -2158,7 +2159,11 @@ def g_c08(r, tier, env, Ls):
                  k=[r.pick([1e-9, 1e-3, 1.0, r.logu(1e-2, 1e1)]) for _ in range(ncell)],
                  y=[v for _ in range(ncell) for v in (r.logu(1e-1, 1e1), r.pick([0.0, r.logu(1e-1, 1e1)]))],
                  atol=atol, rtol=r.pick([1e-4, 1e-6, 1e-8]), dt=r.logu(1e-1, 1e1), ptoks=G.ros_param_tokens(env["ros"][pname], {}), pname=pname)
-        if r.chance(0.4):
+        if L > 1 and ncell > L and ncell % L and r.chance(0.5):
+            # only the cells of the trailing partial group carry chemistry on the time scale of the step
+            whole = (ncell // L) * L
+            p["k"] = [1e-9] * whole + [r.pick([0.5, 1.0, 3.0]) for _ in range(ncell - whole)]
+        elif r.chance(0.4):
             # the cells that carry the fast chemistry differ from cell to cell; one species is held to a much tighter
             # tolerance than the other: a tolerance applied to the wrong species or cell then shows at once
             p["atol"] = r.pick([[1e-10, 1e-2], [1e-2, 1e-10]]); p["rtol"] = 1e-8
